@@ -48,7 +48,9 @@ impl Drop for Mount {
 impl Scene {
     /// unmounts what the scene mounted and removes it
     pub fn remove(mut self) {
-        self.mounts.clear();
+        // last mounted first: a later mount on an ancestor hides an earlier one, whose path
+        // resolves again only once the later one is gone
+        while let Some(m) = self.mounts.pop() { drop(m); }
         let _ = std::fs::remove_dir_all(&self.dir);
     }
 }
